@@ -373,6 +373,8 @@ def check(run):
             run.violation("R3", b.where, f"{cname}._bytes omits state that changes the curve (points / closed flag)", key=key_of("C14-R3", cname))
     # ---- A1 / A2 three-point arcs (algebraic)
     _arc_obligations(run, ix)
+    from ..svgarc import sweep_rule
+    sweep_rule(run, ix, "A6", "C14")
     # ---- A5 nesting is decided loop-in-loop
     run.rule("A5", "enclosure_tree: a loop is nested in another when the other CONTAINS THE WHOLE LOOP (polygon in polygon); a representative point of a non-convex "
                    "loop can lie inside a sibling that does not enclose the loop")
